@@ -70,6 +70,8 @@ def append(eng, st, r, segs, ln):
     c = force(eng, st, deref(eng, st, r))
     if not isinstance(c, Cont):
         return False
+    if segs is not None:
+        segs = tuple(x for x in segs if not (x[0] == "const" and len(x[1]) == 0))   # appending nothing adds no segment
     nsegs = None if (c.segs is None or segs is None) else c.segs + tuple(segs)
     eng.M.write_path(st, r.loc, r.path, new_cont(eng, c.kind, c.len.add(ln), c.elem, nsegs, c.ty, hint="buf"))
     return True
